@@ -275,6 +275,11 @@ func vpDestroyer() int {
 // backup applies the two operations is the order in which the primary applied them.
 func VerifC04_MirrorRace() {
 	cl := vpTwoMembers(2, 0)
+	// WriteQuorum 2: an acknowledged write is one that both copies took (C05) - so the value the primary ends with,
+	// which is an acknowledged one, must be on the backup too
+	for _, m := range cl.members {
+		m.svc.config.WriteQuorum = 2
+	}
 	if vpChoose("init", 2) == 1 {
 		vpAssume(vpDMap(cl.members[0], "d").Put(context.Background(), "k", []byte{'i'}, nil) == nil)
 	}
